@@ -449,7 +449,9 @@ var fcNodes = [][3]string{
 	// dd re-runs itself on any input but 0 and reloads a one-digit value: consecutive records of equal length
 	{"dd", "LOAD digit 0\nRELOAD digit\nMAP digit\nMOUT back 0\nHALT\nINCMP _ 0\nINCMP . *\n", "dd {{.digit}}"},
 	{"aa", "LOAD stamp 0\nMAP stamp\nMOUT back 0\nMOUT deeper 1\nHALT\nINCMP _ 0\nINCMP cc 1\n", "aa {{.stamp}}"},
-	{"bb", "MOUT back 0\nHALT\nINCMP _ 0\n", "bb"},
+	// bb loads a value that ends in a line feed: the session record (whose last CBOR item is the cache's
+	// last value) then ends in byte 0x0a
+	{"bb", "LOAD nl 0\nMAP nl\nMOUT back 0\nHALT\nINCMP _ 0\n", "bb {{.nl}}"},
 	{"cc", "LOAD long 0\nMOUT back 0\nHALT\nINCMP _ 0\n", "cc"},
 	{"_catch", "MOUT back 0\nHALT\nINCMP _ 0\n", "invalid input"},
 }
@@ -487,6 +489,9 @@ func fcResource() *resource.DbResource {
 			d = string(input[len(input)-1:])
 		}
 		return resource.Result{Content: "d:" + d}, nil
+	})
+	rs.AddLocalFunc("nl", func(ctx context.Context, sym string, input []byte) (resource.Result, error) {
+		return resource.Result{Content: "line:" + string(input) + "\n"}, nil
 	})
 	rs.AddLocalFunc("long", func(ctx context.Context, sym string, input []byte) (resource.Result, error) {
 		return resource.Result{Content: strings.Repeat("xy", 20), FlagSet: []uint32{9}}, nil
